@@ -653,6 +653,7 @@ func ociTestCmd(args []string) error {
 	outp := fs.String("out", "", "trace file")
 	cases := fs.String("cases", "", "file with one content per line (exported by TLC, converted by the check)")
 	replay := fs.String("replay", "", "re-execute the contents stored in the reset lines of this trace file")
+	maxContents := fs.Int("maxcontents", 350, "stop generating contents once the catalogue holds this many blobs and manifests")
 	badblobs := fs.Bool("badblobs", false, "generated contents may name a config/layer identifier that is not a blob")
 	fs.Parse(args)
 	var all []otCase
@@ -670,12 +671,20 @@ func ociTestCmd(args []string) error {
 		}
 		all = append(all, cs...)
 	}
-	rnd := rand.New(rand.NewSource(*seed))
-	for i := 0; i < *n; i++ {
-		all = append(all, otRandCase(rnd, *badblobs))
-	}
 	// (a) first run: the catalogue
 	oc := &otCatalog{cat: &Catalog{Uploads: []string{"u1"}}}
+	oc.blobID("") // every catalogue has the empty blob
+	for _, c := range all {
+		oc.learn(c)
+	}
+	// generated contents: as many as asked for, while the catalogue stays small enough to be one TLA+ expression
+	rnd := rand.New(rand.NewSource(*seed))
+	for i := 0; i < *n && len(oc.cat.Contents) < *maxContents; i++ {
+		c := otRandCase(rnd, *badblobs)
+		all = append(all, c)
+		oc.learn(c)
+	}
+	oc.finish()
 	repos, tags := map[string]bool{}, map[string]bool{}
 	for i := range all {
 		for r, rc := range all[i].Repos {
@@ -692,11 +701,6 @@ func ociTestCmd(args []string) error {
 	if len(oc.cat.Tags) == 0 {
 		oc.cat.Tags = []string{"t1"}
 	}
-	oc.blobID("") // every catalogue has the empty blob
-	for _, c := range all {
-		oc.learn(c)
-	}
-	oc.finish()
 	of, err := os.Create(*outp)
 	if err != nil {
 		return err
